@@ -28,6 +28,7 @@ type snap struct {
 	point string
 	pass  string
 	start uint64
+	idx   int // index of the point in the run
 }
 
 type G struct {
@@ -249,10 +250,11 @@ func (g *G) plotRun(dir string, pk *pocec.PublicKey, bl int, wa, wb []int, snaps
 		if snapshots && name != "final-checkpoint" {
 			d := filepath.Join(g.root, fmt.Sprintf("snap%d_%d", g.nrun, idx))
 			copyDir(dir, d)
-			snaps = append(snaps, snap{d, name, ps, start})
+			snaps = append(snaps, snap{d, name, ps, start, idx})
 		}
 		if idx == stopAt {
 			stop()
+			time.Sleep(3 * time.Millisecond) // the stop is in force before the plot goes on from this point
 		}
 		if windows > 4*(1<<uint(bl)) {
 			stop() // runaway: a window that makes no progress
@@ -277,6 +279,24 @@ func (g *G) plotRun(dir string, pk *pocec.PublicKey, bl int, wa, wb []int, snaps
 	}
 	mu.Unlock()
 	stopOnce.Do(func() {}) // no further stop requests
+	// what the open object reports now (in memory) must not run ahead of what its files hold
+	memPlotted := mdb.Ready()
+	_, memCpB := mdb.HashMapB.Progress()
+	memCpA, hasMemA := uint64(0), false
+	if mdb.HashMapA != nil {
+		_, cp := mdb.HashMapA.Progress()
+		memCpA, hasMemA = uint64(cp), true
+	}
+	defer func() {
+		st := readState(dir, pk, bl)
+		g.h.Res.OracleEvals++
+		if memPlotted && !st.plotted {
+			g.h.Fail("C10:reports-plotted-ahead-of-file", fmt.Sprintf("after Plot() returned (%s) the open space reports plotted, its file does not (checkpoint B in memory %d, on disk %d)", outcome, memCpB, st.cpB))
+		}
+		if uint64(memCpB) > st.cpB || (hasMemA && st.hasA && memCpA > st.cpA) {
+			g.h.Fail("C10:progress-ahead-of-durable-data", fmt.Sprintf("after Plot() returned (%s) the open space's checkpoints (A %d, B %d) are ahead of the files' (A %d, B %d)", outcome, memCpA, memCpB, st.cpA, st.cpB))
+		}
+	}()
 	if stopDone != nil {
 		<-stopDone // the stopper has seen the plot goroutine exit: Close will not stop it a second time
 	} else {
@@ -420,6 +440,7 @@ func main() {
 		dir := g.newDir(pk, bl)
 		empty := readState(dir, pk, bl)
 		snaps, outcome, usedA, usedB := g.plotRun(dir, pk, bl, wa, wb, *focus == "C10", -1, 60*time.Second)
+		snaps0 := append([]snap(nil), snaps...)
 		desc := fmt.Sprintf("bl=%d key=%x.. cacheA=%v cacheB=%v (windows A:%d B:%d)", bl, pk.SerializeCompressed()[:4], wa, wb, len(usedA), len(usedB))
 		replay := []string{"# " + desc}
 		final := readState(dir, pk, bl)
@@ -452,8 +473,19 @@ func main() {
 				}
 				os.RemoveAll(s.dir)
 			}
-			// graceful stops at a few points of a fresh run, then resume
-			for _, stopAt := range []int{0, 1, 3, 5} {
+			// graceful stops at a few points of a fresh run, then resume: fixed early points, the last window of
+			// pass B filled but not yet flushed, and one more filled window
+			stops := []int{0, 1, 3, 5}
+			var filled []int
+			for _, s := range snaps0 {
+				if s.point == "window-filled" {
+					filled = append(filled, s.idx)
+				}
+			}
+			if len(filled) > 0 {
+				stops = append(stops, filled[len(filled)-1], filled[h.Rng.Intn(len(filled))])
+			}
+			for _, stopAt := range stops {
 				d := g.newDir(pk, bl)
 				_, o1, _, _ := g.plotRun(d, pk, bl, wa, wb, false, stopAt, 30*time.Second)
 				mid := readState(d, pk, bl)
